@@ -240,11 +240,32 @@ func (p *Prog) TopFuncs() []*ssa.Function {
 		if fn.Synthetic != "" && !strings.HasPrefix(fn.Synthetic, "package initializer") {
 			continue // wrappers, bound methods, thunks: analysed through their targets
 		}
+		if InlinedAway[funcKeyOf(fn)] {
+			continue // a new helper whose every call was inlined into its callers (core/normalize.go)
+		}
 		seen[fn] = true
 		out = append(out, fn)
 	}
 	sort.Slice(out, func(i, j int) bool { return out[i].String() < out[j].String() })
 	return out
+}
+
+// funcKeyOf: the inventory key (see FuncKey) of an SSA function.
+func funcKeyOf(fn *ssa.Function) string {
+	if fn.Pkg == nil {
+		return ""
+	}
+	recv := ""
+	if r := fn.Signature.Recv(); r != nil {
+		t := r.Type()
+		if p, ok := t.(*types.Pointer); ok {
+			t = p.Elem()
+		}
+		if n, ok := t.(*types.Named); ok {
+			recv = n.Obj().Name() + "."
+		}
+	}
+	return fn.Pkg.Pkg.Path() + "." + recv + fn.Name()
 }
 
 // Family returns fn and all function literals nested in it.
